@@ -18,7 +18,7 @@ BIN_CFGS = [(2, 0.0, 2.0), (4, -1.0, 1.0), (3, 0.0, 3.0), (1, -1.0, 1.0), (8, -4
 SPARSE_CFGS = [(1.0, 0.0), (0.5, -0.25), (2.0, 1.0), (0.1, 0.0), (1 / 3, 0.05), (0.7, -0.35), (0.3, 0.0), (0.3, 0.1),
                (1e-3, 5.0), (1e6, -0.5), (0.01, 0.0), (3.0, -1.5)]
 CENTRAL_CFGS = [[0.0, 1.0, 3.0], [-1.0, 1.0], [-0.1, 0.2, 0.7], [1 / 3, 2 / 3, 1.0, 2.0], [0.0, 0.1, 0.3, 0.6, 1.0],
-                [-1e6, 0.0, 1e6], [3.0, 0.0, 1.0]]
+                [-1e6, 0.0, 1e6], [3.0, 0.0, 1.0], [-3.3, -1.1, 0.3, 0.9, 2.7, 8.1], [0.1, 0.7, 1.9, 2.3]]
 IRR_CFGS = [[0.0, 1.0], [-1.0, 0.5, 2.0], [0.1, 0.2, 0.3], [1 / 3, 2 / 3], [0.0], [-0.7, -0.1, 0.1, 0.7, 1e6]]
 
 
@@ -61,11 +61,14 @@ class Geo:
             self.bins = [(i, e[i], e[i + 1]) for i in range(len(c))]
             self.dyadic = is_dyadic(c + m)
             self.clip = None
+            # fill compares with (c1 + c2) / 2.0 itself: the boundary is that very float, whatever the centres
+            self.exact = True
         else:
             e = [-INF] + list(cfg) + [INF]
             self.bins = [(i, e[i], e[i + 1]) for i in range(len(e) - 1)]
             self.dyadic = is_dyadic(list(cfg))
             self.clip = None
+            self.exact = True  # the thresholds are given, not computed
 
     def finite_edges(self):
         es = []
@@ -247,7 +250,8 @@ def check_1d(kind, cfg, fillset, lo, hi, via="fill"):
         out.append(V("bin_edges", "edges-not-monotone"))
         return out
     # which run of the partition did the views report?  (identified by the first edge)
-    start = [j for j, (k, a, b) in enumerate(allowed) if close(float(edges[0]), a, geo.dyadic)] if n else [0]
+    exact = geo.dyadic or getattr(geo, "exact", False)
+    start = [j for j, (k, a, b) in enumerate(allowed) if close(float(edges[0]), a, exact)] if n else [0]
     if not start:
         out.append(V("bin_edges", "edges-do-not-match-the-fill-partition"))
         return out
@@ -258,7 +262,7 @@ def check_1d(kind, cfg, fillset, lo, hi, via="fill"):
         return out
     exp = got
     for i, (k, a, b) in enumerate(exp):
-        if not close(float(edges[i]), a, geo.dyadic) or not close(float(edges[i + 1]), b, geo.dyadic):
+        if not close(float(edges[i]), a, exact) or not close(float(edges[i + 1]), b, exact):
             out.append(V("bin_edges", "edges-do-not-match-the-fill-partition"))
             return out
         c = float(centers[i])
@@ -544,6 +548,17 @@ def check_categorize(labels):
         if got != want:
             out.append(FW.violation(PROP, "categorize", "Categorize.bin_entries(labels)", "differ-from-bins", args,
                                     {"got": got, "expected": want, "ask": ask}))
+        # every way of asking for labels: each exactly once in every order, subsets, repeats, unknown ones
+        real = [k for k in h.bins]
+        queries = [list(p_) for p_ in itertools.permutations(real)] if len(real) <= 4 else [list(reversed(real)), sorted(real, key=str)]
+        queries += [real[:1], real[-1:] * 2, real + ["zzz"], ["zzz"] + real[::-1]]
+        for q in queries:
+            got = [float(x) for x in h.bin_entries(labels=q)]
+            want = [content.get(key(l), 0.0) if l in h.bins else 0.0 for l in q]
+            if got != want:
+                out.append(FW.violation(PROP, "categorize", "Categorize.bin_entries(labels)", "entry-i-is-not-the-content-of-label-i",
+                                        args, {"got": got, "expected": want, "ask": [str(l) for l in q]}))
+                break
         if content:
             m = str(h.mpv)
             if content.get(m) != max(content.values()):
